@@ -300,7 +300,7 @@ def path_atoms(fn, ref, truth, s, depth=0):
     c = const_int(ref)
     if c is not None:
         return [] if bool(c) == truth else None
-    if depth > 8:
+    if depth > 16:
         return []
     ins = fn.get(ref) if isinstance(ref, str) else None
     if ins is None:
@@ -311,6 +311,11 @@ def path_atoms(fn, ref, truth, s, depth=0):
         ai = fn.get(a) if isinstance(a, str) else None
         if bz == 0 and ins.pred in ('ne', 'eq') and ai is not None and ai.op == 'zext' and ai.x.get('sbits') == 1:
             return path_atoms(fn, ai.o[0], truth if ins.pred == 'ne' else (not truth), s, depth + 1)
+        if bz == 0 and ins.pred in ('ne', 'eq') and ai is not None and ai.op in ('and', 'or') and ai.ty != 'i1':
+            # truth values combined with the bitwise operators on 0/1 integers
+            from .facts import _bool01
+            if all(_bool01(fn, o) is not None for o in ai.o):
+                return path_atoms(fn, ai.ref, truth if ins.pred == 'ne' else (not truth), s, depth + 1)
         if ins.pred not in _PREDS:
             return []
         a0, b0 = _k(strip_bitcasts(fn, a)), _k(strip_bitcasts(fn, b))
@@ -325,9 +330,15 @@ def path_atoms(fn, ref, truth, s, depth=0):
         return [at]
     if ins.op == 'xor' and const_int(ins.o[1]) == 1:
         return path_atoms(fn, ins.o[0], not truth, s, depth + 1)
+    ops = list(ins.o)
+    if ins.op in ('and', 'or') and ins.ty != 'i1':
+        from .facts import _bool01
+        ops = [_bool01(fn, o) for o in ins.o]
+        if any(o is None for o in ops):
+            return []
     if (ins.op == 'and' and truth) or (ins.op == 'or' and not truth):
-        a1 = path_atoms(fn, ins.o[0], truth, s, depth + 1)
-        a2 = path_atoms(fn, ins.o[1], truth, s, depth + 1)
+        a1 = path_atoms(fn, ops[0], truth, s, depth + 1)
+        a2 = path_atoms(fn, ops[1], truth, s, depth + 1)
         if a1 is None or a2 is None:
             return None
         return a1 + a2
